@@ -40,6 +40,15 @@ def make_text(rnd, i):
         if rnd.random() < 0.5:
             cl.append((name, cl[0][1], 'fail', True))
         return S.program_text(cl), 'never-succeeds'
+    if k == 4 and i % 20 == 4:
+        # numerals around the interpreter's limit for int <-> str conversion (4300 digits): the compiler may
+        # refuse them, but what it accepts must load
+        n = rnd.choice([4290, 4299, 4300, 4301, 4310, 6000])
+        digits = rnd.choice('123456789') + ''.join(rnd.choice('0123456789') for _ in range(n - 1))
+        if rnd.random() < 0.3:
+            digits = '000' + digits
+        cl = [('big', [('N', digits)], 'tru')] if rnd.random() < 0.6 else [('big', [], ('call', 'q', [('F', 'f', [('N', digits)])]), True)]
+        return S.program_text(cl), 'huge-numeral'
     return g.text(g.program()), 'random'
 
 
@@ -73,6 +82,8 @@ def case(rep, drv, rnd, i, tier):
         if sx(pyast.module(real[1])) != sx(model[2]):
             rep.disagreements_checked += 1
             rep.broken_ties.append(dict(payload, tie='T1 emitted Python differs from the model of the compiler'))
+    elif real[0] != 'ok' and model[0] == 'ok' and kind == 'huge-numeral':
+        rep.count('numeral-beyond-the-interpreter-limit-rejected')     # the model's numerals are unbounded
     elif real[0] != 'ok' and model[0] == 'ok' and not model[1]:
         rep.disagreements_checked += 1
         rep.broken_ties.append(dict(payload, tie='T1 real compiler rejects what the model accepts'))
@@ -87,7 +98,8 @@ def run(tier):
     n = 1500 if tier == 'quick' else 40000
     with Check(PROP, tier) as chk:
         par.run_cases(chk.rep, 'harness.checks.c11', 'case', n)
-        chk.finish(rule='source texts over the whole syntax with boundary forms: leading-zero and 30-digit numerals, variables and atoms named '
+        chk.finish(rule='source texts over the whole syntax with boundary forms: leading-zero and 30-digit numerals, numerals around the '
+                        'interpreter\'s 4300-digit conversion limit, variables and atoms named '
                         'like Python keywords / engine names / generator-internal names, quoted predicate names (valid, invalid, non-ASCII), '
                         'bodies that never succeed, conjunctions of 15-23 goals with and without trailing fail/cut/negation, terms nested '
                         '90-104 deep, if-then-else nested 6-12 deep, directives, comments; every accepted text must compile() and load, '
